@@ -144,6 +144,14 @@ def fromV3OpAssigned : List String := ["security", "parameters", "consumes", "re
 
 /-! ## §2 references -/
 
+/-- pinned: `var ref2To3` — the prefixes ToV3Ref rewrites (and FromV3Ref rewrites back) -/
+def ref2To3 : List (String × String) :=
+  [("#/definitions/", "#/components/schemas/"), ("#/responses/", "#/components/responses/"),
+   ("#/parameters/", "#/components/parameters/")]
+
+/-- pinned: `var attemptedBodyParameterNames` — the names FromV3Operation tries for the body parameter -/
+def bodyParamNames : List String := ["body", "requestBody"]
+
 /-- the prefix of a `$ref`; `other` carries everything the converter leaves alone -/
 inductive RK where
   | def2 | par2 | resp2          -- #/definitions/ #/parameters/ #/responses/
@@ -1112,7 +1120,7 @@ def paramName3 {V : Type} (cparams : List (String × PRef3 V)) : PRef3 V → Str
 /-- FromV3Operation fails with "could not find a name for request body": the operation has a request body
     and parameters named `body` and `requestBody` -/
 def opNameClash {V : Type} (cparams : List (String × PRef3 V)) (o : Op3 V) : Bool :=
-  o.body.isSome && ["body", "requestBody"].all (fun n => o.params.any (fun p => paramName3 cparams p == n))
+  o.body.isSome && bodyParamNames.all (fun n => o.params.any (fun p => paramName3 cparams p == n))
 
 /-- outcome of FromV3 -/
 inductive BackRes (V : Type) where
